@@ -99,7 +99,9 @@ pub enum RK {
     Aborter { b: Src, target: usize },
     SibAborter { a: Src, handle: u16 },
     /// hosts nested commands one after another, applying `map_effect`/`map_event` tags
-    Host { cur: Box<RCmd>, rest: Vec<RCmd>, eff_tags: u8, ev_tags: u8 },
+    /// `own`: the hosting task also awaits a request of its own (`JoinHosted`): it finishes, with
+    /// event(own), when both are through.
+    Host { cur: Box<RCmd>, rest: Vec<RCmd>, eff_tags: u8, ev_tags: u8, own: Option<Src> },
 }
 
 #[derive(Clone, Debug, PartialEq, Eq, PartialOrd, Ord)]
@@ -134,6 +136,8 @@ pub struct Ctx<'a> {
     pub next_uid: &'a mut u32,
     /// abort requests issued by tasks during this settle, applied by the enclosing command loops
     pub aborts: &'a mut Vec<u16>,
+    /// this settle discards hosting tasks that can never finish (see `RState::evict_zombies`)
+    pub evict: bool,
 }
 
 impl Ctx<'_> {
@@ -186,7 +190,7 @@ impl RCmd {
     /// nested command exists - and can be aborted - before anything is polled).
     pub fn build(p: &P) -> RCmd {
         fn host(c: RCmd, rest: Vec<RCmd>, eff_tags: u8, ev_tags: u8) -> RTask {
-            task(RK::Host { cur: Box::new(c), rest, eff_tags, ev_tags })
+            task(RK::Host { cur: Box::new(c), rest, eff_tags, ev_tags, own: None })
         }
         fn single(t: RTask) -> RCmd {
             let mut c = RCmd::default();
@@ -206,6 +210,7 @@ impl RCmd {
                 c
             }
             P::Manual(q) => RCmd::build(q),
+            P::JoinHosted(s, q) => single(task(RK::Host { cur: Box::new(RCmd::build(q)), rest: vec![], eff_tags: 0, ev_tags: 0, own: Some(Src::new(*s)) })),
             P::SelfAbort(s, _) | P::QuietSelfAbort(s) => {
                 let mut c = single(task(RK::Fresh(p.clone())));
                 c.abort_ids.push(2000 + s.id);
@@ -336,6 +341,31 @@ impl RCmd {
         }
     }
 
+    /// Paths to hosting tasks that can never finish (`JoinHosted`: own request gone, hosted command through).
+    fn zombies(&self, prefix: &mut Vec<usize>, out: &mut Vec<Vec<usize>>) {
+        for (i, t) in self.tasks.iter().enumerate() {
+            let Some(t) = t else { continue };
+            prefix.push(i);
+            if let RK::Host { cur, rest, own, .. } = &t.kind {
+                if let Some(a) = own {
+                    if a.st == St::G && cur.is_fin() && rest.is_empty() {
+                        out.push(prefix.clone());
+                    }
+                }
+                cur.zombies(prefix, out);
+            }
+            prefix.pop();
+        }
+    }
+
+    fn has_own_host(&self) -> bool {
+        self.tasks.iter().flatten().chain(self.spawnq.iter()).any(|t| match &t.kind {
+            RK::Host { cur, rest, own, .. } => own.is_some() || cur.has_own_host() || rest.iter().any(RCmd::has_own_host),
+            RK::Fresh(p) => p.contains(&|q| matches!(q, P::JoinHosted(..))),
+            _ => false,
+        })
+    }
+
     pub fn has_abort_pending(&self) -> bool {
         let mut v = vec![];
         self.abort_pending(&mut vec![], &mut v);
@@ -381,6 +411,14 @@ impl RCmd {
                     if !self.abort(k) {
                         cx.aborts.push(k);
                     }
+                }
+                if self.aborted {
+                    // aborted by the task that has just run: cancelled work never produces another
+                    // output (C06), so nothing that is still queued in this pass runs any more
+                    self.tasks.clear();
+                    self.spawnq.clear();
+                    self.ready.clear();
+                    return;
                 }
                 if r == Run::Pending {
                     self.tasks[i] = Some(t);
@@ -577,7 +615,7 @@ impl RCmd {
                 }
                 P::Unordered(..) => unreachable!("Unordered is handled by its own check"),
                 P::And(..) | P::Abortable(..) | P::Manual(..) | P::Then(..) | P::MapEffect(_) | P::MapEvent(_)
-                | P::FromInto(_) | P::All(_) | P::SiblingAbort(..) | P::Legacy(_) => unreachable!("handled by RCmd::build"),
+                | P::FromInto(_) | P::All(_) | P::SiblingAbort(..) | P::Legacy(_) | P::JoinHosted(..) => unreachable!("handled by RCmd::build"),
             }
         }
         // (re-)poll
@@ -935,7 +973,13 @@ impl RCmd {
                 St::G => Run::Finished,
                 _ => Run::Pending,
             },
-            RK::Host { cur, rest, eff_tags, ev_tags } => {
+            RK::Host { cur, rest, eff_tags, ev_tags, own } => {
+                if let Some(a) = own {
+                    // join(own request, hosted command): the request is polled first
+                    if a.st == St::U {
+                        cx.eff(a, Kind::Once, 0);
+                    }
+                }
                 loop {
                     let mut sub = Ctx {
                         out: cx.out,
@@ -943,6 +987,7 @@ impl RCmd {
                         ev_tags: cx.ev_tags + *ev_tags,
                         next_uid: cx.next_uid,
                         aborts: cx.aborts,
+                        evict: cx.evict,
                     };
                     let aborted_before = cur.aborted;
                     cur.settle(&mut sub);
@@ -955,7 +1000,23 @@ impl RCmd {
                         return Run::Pending;
                     }
                     if rest.is_empty() {
-                        return Run::Finished;
+                        return match own {
+                            None => Run::Finished,
+                            Some(a) => match a.st {
+                                St::V(v) => {
+                                    let site = a.site;
+                                    cx.got(site, v);
+                                    Run::Finished
+                                }
+                                // the hosted command is through and the task's own request is gone: the
+                                // task can never finish. When it is discarded depends on stale waker
+                                // chains through the requests the hosted command left behind; the
+                                // property demands it only once nothing is outstanding any more
+                                // (RState::evict_zombies decides for this settle).
+                                St::G if cx.evict => Run::Finished,
+                                _ => Run::Pending,
+                            },
+                        };
                     }
                     *cur = Box::new(rest.remove(0));
                 }
@@ -1000,14 +1061,25 @@ impl RK {
     }
 
     fn find_src(&self, h: u16) -> Option<&Src> {
-        if let RK::Host { cur, .. } = self {
+        if let RK::Host { cur, own, .. } = self {
+            if let Some(a) = own {
+                if a.h == Some(h) && a.st == St::P {
+                    return Some(a);
+                }
+            }
             return cur.find_src(h);
         }
         self.srcs().into_iter().find(|s| s.h == Some(h) && s.st == St::P)
     }
 
     fn bind(&mut self, uid: u32, h: u16) -> bool {
-        if let RK::Host { cur, .. } = self {
+        if let RK::Host { cur, own, .. } = self {
+            if let Some(a) = own {
+                if a.uid == uid && a.st == St::P && a.h.is_none() {
+                    a.h = Some(h);
+                    return true;
+                }
+            }
             return cur.bind(uid, h);
         }
         for s in self.srcs_mut() {
@@ -1020,7 +1092,17 @@ impl RK {
     }
 
     fn deliver(&mut self, h: u16, inp: Inp) -> Option<bool> {
-        if let RK::Host { cur, .. } = self {
+        if let RK::Host { cur, own, .. } = self {
+            if let Some(a) = own {
+                if a.h == Some(h) && a.st == St::P {
+                    match inp {
+                        Inp::Value(v) => a.q.push(v),
+                        Inp::Once(v) => a.st = St::V(v),
+                        Inp::Gone => a.st = St::G,
+                    }
+                    return Some(true);
+                }
+            }
             return cur.deliver(h, inp);
         }
         // rule 10: an item for the outer stream of `stream.then_request` while the inner request is
@@ -1060,6 +1142,10 @@ pub struct RState {
     pub handles: Vec<HState>,
     /// predicted effects of the last settle that have not been bound to handles yet
     pub unbound: Vec<(u32, EffD)>,
+    /// choice for the next settle: hosting tasks that can never finish any more are discarded in it
+    /// (those that exist are woken, those that arise are discarded at once). Both choices are
+    /// alternatives while some request is still outstanding; once none is, only `true` is.
+    pub evict_zombies: bool,
 }
 
 #[derive(Clone, Copy, Debug, PartialEq, Eq, PartialOrd, Ord)]
@@ -1183,6 +1269,19 @@ impl RState {
             }
             out.push(s);
         }
+        if self.roots.iter().any(RCmd::has_own_host) {
+            let nothing_outstanding = self.handles.iter().all(|h| h.dropped || h.kind == Kind::Never || (h.kind == Kind::Once && h.resolved));
+            let mut both = vec![];
+            for s in out {
+                let mut e = s.clone();
+                e.evict_zombies = true;
+                if !nothing_outstanding {
+                    both.push(s);
+                }
+                both.push(e);
+            }
+            out = both;
+        }
         out
     }
 
@@ -1190,11 +1289,20 @@ impl RState {
     /// root regardless, as the direct host does). Returns the outputs.
     pub fn settle(&mut self, poll_all: bool) -> Vec<O> {
         let mut out = vec![];
+        let evict = std::mem::take(&mut self.evict_zombies);
         for r in &mut self.roots {
+            if evict {
+                let mut paths = vec![];
+                r.zombies(&mut vec![], &mut paths);
+                for p in paths {
+                    r.spur = true;
+                    r.spurious(&p);
+                }
+            }
             let spur = std::mem::take(&mut r.spur);
             if poll_all || spur || !r.ready.is_empty() || !r.spawnq.is_empty() {
                 let mut aborts = vec![];
-                let mut cx = Ctx { out: &mut out, eff_tags: 0, ev_tags: 0, next_uid: &mut self.next_uid, aborts: &mut aborts };
+                let mut cx = Ctx { out: &mut out, eff_tags: 0, ev_tags: 0, next_uid: &mut self.next_uid, aborts: &mut aborts, evict };
                 let aborted_before = r.aborted;
                 r.settle(&mut cx);
                 if !aborted_before && r.aborted {
